@@ -60,9 +60,68 @@ fn salience(t: usize, i: usize) -> i32 {
     }
 }
 
+fn kb_of(n: usize, t: usize) -> KnowledgeBase {
+    let kb = KnowledgeBase::new("kb");
+    for i in 0..n {
+        kb.add_rule(rule(i + t, salience(t, i))).unwrap();
+    }
+    kb
+}
+
+fn reuse_case(n: usize, t1: usize, t2: usize, enabled: bool, mt: usize) -> Result<(), (String, String)> {
+    let (kb1, kb2) = (kb_of(n, t1), kb_of(n, t2));
+    let seq = engine(false, 1, 1).execute_parallel(&kb2, &facts(), false).map_err(|e| ("sequential_execution_failed".to_string(), format!("{:?}", e)))?;
+    let sset: BTreeSet<(String, bool)> = seq.execution_contexts.iter().map(|c| (c.rule.name.clone(), c.fired)).collect();
+    // one engine object, two different knowledge bases (same number of rules, hence equal version counters)
+    let mut e = engine(enabled, mt, 1);
+    e.execute_parallel(&kb1, &facts(), false).map_err(|e| ("parallel_execution_failed".to_string(), format!("{:?}", e)))?;
+    let par = e.execute_parallel(&kb2, &facts(), false).map_err(|e| ("parallel_execution_failed".to_string(), format!("{:?}", e)))?;
+    let pset: BTreeSet<(String, bool)> = par.execution_contexts.iter().map(|c| (c.rule.name.clone(), c.fired)).collect();
+    if pset != sset || par.execution_contexts.len() != n || par.total_rules_evaluated != seq.total_rules_evaluated || par.total_rules_fired != seq.total_rules_fired {
+        return Err(("parallel_differs_from_sequential".to_string(), format!("second call of a reused engine: {} contexts {:?} evaluated {} fired {}; evaluating the second knowledge base one by one: {:?} evaluated {} fired {}", par.execution_contexts.len(), pset, par.total_rules_evaluated, par.total_rules_fired, sset, seq.total_rules_evaluated, seq.total_rules_fired)));
+    }
+    Ok(())
+}
+
+/// the engine object carries no state from one call to the next: a second call with another knowledge base gives that
+/// knowledge base's verdicts
+fn run_reuse(opts: &Opts) -> Report {
+    let t0 = Instant::now();
+    let mut rep = Report::new("engine_reused_across_knowledge_bases");
+    let nmax = if opts.tier == Tier::Quick { 8 } else { 16 };
+    let mut distinct = 0u64;
+    for n in 1..=nmax {
+        for t1 in 0..6usize {
+            for t2 in 0..6usize {
+                if t1 == t2 {
+                    continue;
+                }
+                for (enabled, mt) in [(true, 4usize), (true, 2), (false, 1)] {
+                    rep.count("evaluations", 1);
+                    let case = json!({"sub": "engine_reused_across_knowledge_bases", "n_rules": n, "first_template": t1, "second_template": t2, "enabled": enabled, "max_threads": mt});
+                    match std::panic::catch_unwind(|| reuse_case(n, t1, t2, enabled, mt)) {
+                        Err(_) => rep.violation(Violation { class: "execute_parallel_panicked".into(), detail: crate::explore::take_panic(), tags: vec![], case }),
+                        Ok(Err((c, d))) => rep.violation(Violation { class: c, detail: d, tags: vec!["engine_reused".into()], case }),
+                        Ok(Ok(())) => distinct += 1,
+                    }
+                }
+            }
+        }
+    }
+    rep.count("nontrivial", distinct);
+    rep.sample(json!({"n_rules": 3, "first_template": 0, "second_template": 1, "enabled": true, "max_threads": 4}));
+    rep.bound = format!("every (n_rules 1..={}, ordered pair of different salience templates / rule sets, parallelism on with 4 or 2 threads, off): first call with one knowledge base, second call of the same engine object with the other, compared with one-by-one evaluation of the second", nmax);
+    rep.wall_s = t0.elapsed().as_secs_f64();
+    rep
+}
+
 pub fn run(opts: &Opts) -> Vec<Report> {
+    let mut out = vec![];
+    if crate::props::wants(opts, "engine_reused_across_knowledge_bases") {
+        out.push(run_reuse(opts));
+    }
     if !crate::props::wants(opts, "parallel_config_sweep") {
-        return vec![];
+        return out;
     }
     let t0 = Instant::now();
     let max_rules = if opts.tier == Tier::Quick { 8 } else { 24 };
@@ -153,10 +212,19 @@ pub fn run(opts: &Opts) -> Vec<Report> {
     rep.bound = format!("every (n_rules 1..={}, 6 salience templates with ties, one rule disabled or not, max_threads 1..=16, min_rules_per_thread 1..=4, parallelism on/off); OS schedules are sampled, not enumerated", max_rules);
     rep.assumptions.push("this half enumerates configurations exhaustively but only samples thread schedules (real threads); the exhaustive-schedule claim is carried by the loom half".into());
     rep.wall_s = t0.elapsed().as_secs_f64();
-    vec![rep]
+    out.push(rep);
+    out
 }
 
 pub fn replay(case: &serde_json::Value) -> crate::props::ReplayResult {
+    if case["sub"].as_str() == Some("engine_reused_across_knowledge_bases") {
+        let g = |k: &str| case[k].as_u64().unwrap_or(1) as usize;
+        let hist = vec![case.to_string()];
+        return match reuse_case(g("n_rules"), g("first_template"), g("second_template"), case["enabled"].as_bool().unwrap_or(true), g("max_threads")) {
+            Ok(()) => Ok(hist),
+            Err((c, d)) => Err((hist, c, d)),
+        };
+    }
     let n = case["n_rules"].as_u64().unwrap_or(2) as usize;
     let t = case["template"].as_u64().unwrap_or(0) as usize;
     let disabled = case["disabled"].as_u64().map(|x| x as usize);
